@@ -329,4 +329,336 @@ theorem auto_bound (infos : List (Option Info)) (c r : Nat) :
   omega
 
 
+
+/-! ### progress of repeated percentage scrubs -/
+
+theorem mem_insertSorted (x : Nat) (l : List Nat) (z : Nat) : z ∈ insertSorted x l ↔ z = x ∨ z ∈ l := by
+  induction l with
+  | nil => simp [insertSorted]
+  | cons y ys ih =>
+    simp only [insertSorted]
+    split
+    · simp
+    · simp only [List.mem_cons, ih]
+      constructor
+      · rintro (h | h | h)
+        · exact Or.inr (Or.inl h)
+        · exact Or.inl h
+        · exact Or.inr (Or.inr h)
+      · rintro (h | h | h)
+        · exact Or.inr (Or.inl h)
+        · exact Or.inl h
+        · exact Or.inr (Or.inr h)
+
+theorem mem_sortTimes (l : List Nat) (z : Nat) : z ∈ sortTimes l ↔ z ∈ l := by
+  induction l with
+  | nil => simp [sortTimes]
+  | cons x xs ih => simp only [sortTimes, mem_insertSorted, ih, List.mem_cons]
+
+theorem sortTimes_length (l : List Nat) : (sortTimes l).length = l.length := by
+  have : ∀ x (l : List Nat), (insertSorted x l).length = l.length + 1 := by
+    intro x l
+    induction l with
+    | nil => rfl
+    | cons y ys ih => simp only [insertSorted]; split <;> simp [ih]
+  induction l with
+  | nil => rfl
+  | cons x xs ih => simp only [sortTimes, this, ih, List.length_cons]
+
+/-- when a percentage plan selects anything (countlimit ≥ 1): the time limit is the check time of some
+    used stripe, and at least one stripe at exactly the limit may be taken -/
+theorem limits_witness (infos : List (Option Info)) (c r : Nat) (h : 1 ≤ (limits infos c r).countlimit) :
+    (∃ x : Info, some x ∈ infos ∧ x.time = (limits infos c r).timelimit) ∧ 1 ≤ (limits infos c r).lastlimit := by
+  unfold limits at h ⊢
+  simp only at h ⊢
+  generalize hT : sortTimes (infos.filterMap fun i => i.map (·.time)) = T at h ⊢
+  by_cases hpos : lowerCount T r (min c T.length) > 0
+  · simp only [hpos, if_true] at h ⊢
+    generalize hc : lowerCount T r (min c T.length) = cc at hpos h ⊢
+    have hcc : cc ≤ T.length := by
+      rw [← hc]; exact Nat.le_trans (lowerCount_le _ _ _) (Nat.min_le_right _ _)
+    constructor
+    · have hidx : cc - 1 < T.length := by omega
+      have hmem : T.getD (cc - 1) 0 ∈ T := by
+        rw [List.getD_eq_getElem?_getD, List.getElem?_eq_getElem hidx]
+        simp
+      have hmem' : T.getD (cc - 1) 0 ∈ (infos.filterMap fun i => i.map (·.time)) := by
+        rw [← mem_sortTimes, hT]; exact hmem
+      obtain ⟨i, hi, he⟩ := List.mem_filterMap.mp hmem'
+      cases i with
+      | none => simp at he
+      | some x =>
+        simp only [Option.map_some, Option.some.injEq] at he
+        exact ⟨x, hi, he⟩
+    · have hrun : ∀ j, 1 ≤ j → j ≤ 1 → T.getD (cc - j) 0 = T.getD (cc - 1) 0 := by
+        intro j h1 h2
+        have hj : j = 1 := by omega
+        rw [hj]
+      exact (lastRun_spec T cc (T.getD (cc - 1) 0) cc 1 hrun (by omega)).2.2
+  · simp only [hpos, if_false] at h
+    omega
+
+/-- the first used stripe (in position order) whose check time is not after the limit is selected -/
+theorem first_old_selected (c r : Nat) (lim : Limits) (hl : 1 ≤ lim.lastlimit) (is : List (Option Info)) (pos : Nat)
+    (h : ∃ x : Info, some x ∈ is ∧ x.time ≤ lim.timelimit) :
+    ∃ k : Nat, ∃ x : Info, is[k]? = some (some x) ∧ x.time ≤ lim.timelimit ∧ (selectFrom (.auto c r) lim pos 0 is)[k]? = some true := by
+  induction is generalizing pos with
+  | nil => obtain ⟨x, hx, _⟩ := h; cases hx
+  | cons i rest ih =>
+    cases i with
+    | none =>
+      obtain ⟨x, hx, ht⟩ := h
+      have hx' : some x ∈ rest := by
+        rcases List.mem_cons.mp hx with h0 | h0
+        · cases h0
+        · exact h0
+      obtain ⟨k, y, h1, h2, h3⟩ := ih (pos + 1) ⟨x, hx', ht⟩
+      refine ⟨k + 1, y, by rw [List.getElem?_cons_succ]; exact h1, h2, ?_⟩
+      simp only [selectFrom, enabled]
+      rw [List.getElem?_cons_succ]; exact h3
+    | some y =>
+      by_cases hy : y.time ≤ lim.timelimit
+      · refine ⟨0, y, rfl, hy, ?_⟩
+        simp only [selectFrom, enabled]
+        by_cases hb : y.bad = true
+        · simp [hb]
+        · have hbf : y.bad = false := by cases hx : y.bad <;> simp_all
+          simp only [hbf, Bool.false_eq_true, if_false]
+          have hgt : ¬ (y.time > lim.timelimit) := by omega
+          simp only [hgt, if_false]
+          by_cases heq : y.time = lim.timelimit
+          · simp only [heq, if_true]
+            have : ¬ (0 ≥ lim.lastlimit) := by omega
+            simp [this]
+          · simp [heq]
+      · obtain ⟨x, hx, ht⟩ := h
+        have hx' : some x ∈ rest := by
+          rcases List.mem_cons.mp hx with h0 | h0
+          · simp only [Option.some.injEq] at h0; subst h0; exact absurd ht hy
+          · exact h0
+        -- the head is younger than the limit: whether selected (bad) or not, the counter stays 0
+        have hcl : (enabled (.auto c r) lim pos (some y) 0).2 = 0 := by
+          simp only [enabled]
+          by_cases hb : y.bad = true
+          · simp [hb]
+          · have hbf : y.bad = false := by cases hx2 : y.bad <;> simp_all
+            have hgt : y.time > lim.timelimit := by omega
+            simp [hbf, hgt]
+        obtain ⟨k, z, h1, h2, h3⟩ := ih (pos + 1) ⟨x, hx', ht⟩
+        refine ⟨k + 1, z, by rw [List.getElem?_cons_succ]; exact h1, h2, ?_⟩
+        simp only [selectFrom]
+        rw [hcl, List.getElem?_cons_succ]; exact h3
+
+def oldAt (t : Nat) : Option Info → Bool
+  | some x => decide (x.time ≤ t)
+  | none => false
+
+/-- number of used stripes whose last check is not after `t` -/
+def older (t : Nat) (is : List (Option Info)) : Nat := is.countP (oldAt t)
+
+/-- a scrub in which every selected stripe verifies: book-keeping of `book … .ok` -/
+def scrubOk (now : Nat) (sel : List Bool) (is : List (Option Info)) : List (Option Info) :=
+  List.zipWith (fun b i => if b then i.map (fun x => book now x .ok) else i) sel is
+
+theorem oldAt_scrubbed (now t : Nat) (h : t < now) (i : Option Info) :
+    oldAt t (i.map (fun x => book now x .ok)) = false := by
+  cases i with
+  | none => rfl
+  | some x => simp [oldAt, book]; omega
+
+theorem older_scrub_le (now t : Nat) (h : t < now) (sel : List Bool) (is : List (Option Info)) :
+    older t (scrubOk now sel is) ≤ older t is := by
+  induction is generalizing sel with
+  | nil => cases sel <;> simp [scrubOk, older]
+  | cons i rest ih =>
+    cases sel with
+    | nil => simp [scrubOk, older]
+    | cons b bs =>
+      have := ih bs
+      simp only [scrubOk, older, List.zipWith_cons_cons, List.countP_cons] at this ⊢
+      cases b with
+      | false => simp only [Bool.false_eq_true, if_false]; omega
+      | true =>
+        simp only [if_true]
+        rw [oldAt_scrubbed now t h i]
+        simp only [Bool.false_eq_true, if_false]
+        split <;> omega
+
+theorem older_scrub_lt (now t : Nat) (h : t < now) (sel : List Bool) (is : List (Option Info)) (k : Nat) (x : Info)
+    (hk : is[k]? = some (some x)) (hx : x.time ≤ t) (hs : sel[k]? = some true) :
+    older t (scrubOk now sel is) < older t is := by
+  induction is generalizing sel k with
+  | nil => simp at hk
+  | cons i rest ih =>
+    cases sel with
+    | nil => simp at hs
+    | cons b bs =>
+      cases k with
+      | zero =>
+        simp only [List.getElem?_cons_zero, Option.some.injEq] at hk hs
+        subst hk; subst hs
+        have := older_scrub_le now t h bs rest
+        simp only [scrubOk, older, List.zipWith_cons_cons, List.countP_cons, if_true] at this ⊢
+        rw [oldAt_scrubbed now t h (some x)]
+        have hold : oldAt t (some x) = true := by simp [oldAt, hx]
+        simp only [hold, Bool.false_eq_true, if_false, if_true]
+        omega
+      | succ k' =>
+        rw [List.getElem?_cons_succ] at hk hs
+        have := ih bs k' hk hs
+        simp only [scrubOk, older, List.zipWith_cons_cons, List.countP_cons] at this ⊢
+        cases b with
+        | false => simp only [Bool.false_eq_true, if_false]; omega
+        | true =>
+          simp only [if_true]
+          rw [oldAt_scrubbed now t h i]
+          simp only [Bool.false_eq_true, if_false]
+          split <;> omega
+
+/-- the verdict at position `p` of the selection is `enabled` with some value of the running counter -/
+theorem selectFrom_get (plan : Plan) (lim : Limits) (is : List (Option Info)) (pos cl p : Nat) (i : Option Info)
+    (hp : is[p]? = some i) : ∃ cl', (selectFrom plan lim pos cl is)[p]? = some (enabled plan lim (pos + p) i cl').1 := by
+  induction is generalizing pos cl p with
+  | nil => simp at hp
+  | cons j rest ih =>
+    cases p with
+    | zero =>
+      simp only [List.getElem?_cons_zero, Option.some.injEq] at hp
+      subst hp
+      exact ⟨cl, by simp [selectFrom]⟩
+    | succ p' =>
+      rw [List.getElem?_cons_succ] at hp
+      obtain ⟨cl', h⟩ := ih (pos + 1) (enabled plan lim pos j cl).2 p' hp
+      refine ⟨cl', ?_⟩
+      simp only [selectFrom, List.getElem?_cons_succ]
+      rw [h]
+      congr 3
+      omega
+
+/-- a non-bad stripe that a percentage plan does NOT select is not older than the time limit -/
+theorem unselected_ge_limit (c r : Nat) (lim : Limits) (pos cl : Nat) (x : Info) (hb : x.bad = false)
+    (h : (enabled (.auto c r) lim pos (some x) cl).1 = false) : lim.timelimit ≤ x.time := by
+  simp only [enabled, hb, Bool.false_eq_true, if_false] at h
+  by_cases hgt : x.time > lim.timelimit
+  · omega
+  · simp only [hgt, if_false] at h
+    by_cases heq : x.time = lim.timelimit
+    · omega
+    · simp [heq] at h
+
+theorem select_length (plan : Plan) (lim : Limits) (is : List (Option Info)) (pos cl : Nat) :
+    (selectFrom plan lim pos cl is).length = is.length := by
+  induction is generalizing pos cl with
+  | nil => rfl
+  | cons i rest ih => simp [selectFrom, ih]
+
+/-- **progress**: a percentage scrub that selects anything (countlimit ≥ 1) and does not reach the non-bad
+    stripe at position `p` has verified at least one stripe that was not younger than it: the number of
+    stripes at least as old as `p` strictly decreases -/
+theorem scrub_progress (infos : List (Option Info)) (c r now p : Nat) (x : Info)
+    (hp : infos[p]? = some (some x)) (hb : x.bad = false) (hnow : x.time < now)
+    (hc : 1 ≤ (limits infos c r).countlimit)
+    (hun : (select (.auto c r) infos)[p]? = some false) :
+    older x.time (scrubOk now (select (.auto c r) infos) infos) < older x.time infos := by
+  obtain ⟨⟨w, hw, hwt⟩, hl⟩ := limits_witness infos c r hc
+  obtain ⟨cl', hget⟩ := selectFrom_get (.auto c r) (limits infos c r) infos 0 0 p (some x) hp
+  have hsel : select (.auto c r) infos = selectFrom (.auto c r) (limits infos c r) 0 0 infos := rfl
+  rw [hsel] at hun ⊢
+  rw [hget] at hun
+  have hge := unselected_ge_limit c r (limits infos c r) (0 + p) cl' x hb (by simpa using hun)
+  obtain ⟨k, y, hk1, hk2, hk3⟩ := first_old_selected c r (limits infos c r) hl infos 0 ⟨w, hw, by omega⟩
+  exact older_scrub_lt now x.time hnow _ infos k y hk1 (by omega) hk3
+
+theorem lowerCount_pos (T : List Nat) (r n : Nat) (h0 : T.getD 0 0 ≤ r) (hn : 1 ≤ n) : 1 ≤ lowerCount T r n := by
+  induction n with
+  | zero => omega
+  | succ c ih =>
+    simp only [lowerCount]
+    split
+    · rename_i hgt
+      cases c with
+      | zero => omega
+      | succ c' => exact ih (by omega)
+    · omega
+
+/-- a percentage plan with a non-zero budget selects something as soon as one used stripe is old enough -/
+theorem countlimit_pos (infos : List (Option Info)) (c r : Nat) (hc : 1 ≤ c) (x : Info) (hx : some x ∈ infos)
+    (hr : x.time ≤ r) : 1 ≤ (limits infos c r).countlimit := by
+  unfold limits
+  simp only
+  generalize hT : sortTimes (infos.filterMap fun i => i.map (·.time)) = T
+  have hmem : x.time ∈ T := by
+    rw [← hT, mem_sortTimes]
+    exact List.mem_filterMap.mpr ⟨some x, hx, rfl⟩
+  have hsorted : T.Pairwise (· ≤ ·) := by rw [← hT]; exact sortTimes_pairwise _
+  have hlen : 1 ≤ T.length := List.length_pos_of_mem hmem
+  have h0 : T.getD 0 0 ≤ r := by
+    cases T with
+    | nil => simp at hlen
+    | cons a as =>
+      simp only [List.getD_cons_zero]
+      rcases List.mem_cons.mp hmem with h | h
+      · omega
+      · have := (List.pairwise_cons.mp hsorted).1 _ h; omega
+  have := lowerCount_pos T r (min c T.length) h0 (by omega)
+  have hpos : lowerCount T r (min c T.length) > 0 := by omega
+  simp only [hpos, if_true]
+  exact this
+
+theorem scrubOk_unselected (now : Nat) (sel : List Bool) (is : List (Option Info)) (p : Nat) (i : Option Info)
+    (hp : is[p]? = some i) (hs : sel[p]? = some false) : (scrubOk now sel is)[p]? = some i := by
+  simp [scrubOk, List.getElem?_zipWith, hp, hs]
+
+/-- is position `p` selected by one of the successive percentage scrubs `(now, budget, recent-limit)`,
+    all selected stripes verifying? -/
+def covered (p : Nat) : List (Option Info) → List (Nat × Nat × Nat) → Bool
+  | _, [] => false
+  | is, (now, c, r) :: rest =>
+    if (select (.auto c r) is)[p]? = some true then true
+    else covered p (scrubOk now (select (.auto c r) is) is) rest
+
+/-- **eventual coverage**: a used, non-bad stripe whose last check is at time `t` is reached after at most as
+    many successive percentage scrubs as there are stripes not younger than it — provided each of these
+    scrubs has a non-zero budget, considers it old enough (`t ≤ recent limit`) and runs later than `t` -/
+theorem eventually_scrubbed (steps : List (Nat × Nat × Nat)) (infos : List (Option Info)) (p : Nat) (x : Info)
+    (hp : infos[p]? = some (some x)) (hb : x.bad = false)
+    (hsteps : ∀ s ∈ steps, x.time < s.1 ∧ 1 ≤ s.2.1 ∧ x.time ≤ s.2.2)
+    (hlen : older x.time infos ≤ steps.length) : covered p infos steps = true := by
+  induction steps generalizing infos with
+  | nil =>
+    have hmem : some x ∈ infos := List.mem_of_getElem? hp
+    have : 0 < older x.time infos := by
+      unfold older
+      exact List.countP_pos_iff.mpr ⟨some x, hmem, by simp [oldAt]⟩
+    simp at hlen; omega
+  | cons s rest ih =>
+    obtain ⟨now, c, r⟩ := s
+    simp only [covered]
+    split
+    · rfl
+    · rename_i hns
+      obtain ⟨h1, h2, h3⟩ := hsteps (now, c, r) (List.mem_cons_self)
+      simp only at h1 h2 h3
+      have hmem : some x ∈ infos := List.mem_of_getElem? hp
+      have hcl := countlimit_pos infos c r h2 x hmem h3
+      have hlt : p < infos.length := by
+        rcases Nat.lt_or_ge p infos.length with h | h
+        · exact h
+        · rw [List.getElem?_eq_none h] at hp; cases hp
+      have hun : (select (.auto c r) infos)[p]? = some false := by
+        have hl : p < (select (.auto c r) infos).length := by
+          unfold select; rw [select_length]; exact hlt
+        rw [List.getElem?_eq_getElem hl] at hns ⊢
+        cases hv : (select (.auto c r) infos)[p] with
+        | true => rw [hv] at hns; exact absurd rfl hns
+        | false => rfl
+      have hprog := scrub_progress infos c r now p x hp hb h1 hcl hun
+      apply ih
+      · exact scrubOk_unselected now _ infos p (some x) hp hun
+      · intro s hs; exact hsteps s (List.mem_cons_of_mem _ hs)
+      · simp only [List.length_cons] at hlen; omega
+
+example : covered 2 [some {time := 5}, some {time := 3}, some {time := 9}, none, some {time := 1}]
+    [(20, 1, 10), (21, 1, 10), (22, 1, 10), (23, 1, 10)] = true := by decide
+
 end SnapraidVerif.Props.C15
